@@ -60,6 +60,16 @@ def dep_text(name, variant=0):
 
 
 GENERATED = ('Top-1.0', 'Aa-1.0', 'Bb-1.0')
+INCDIRS = {'inc_a': 'Thing', 'inc_b': 'Item'}     # two directories holding a different Dep-1.0.gir
+
+
+def incdep_text(recname):
+    return _HDR + (
+        '  <package name="dep-1.0"/>\n  <c:include name="dep.h"/>\n'
+        '  <namespace name="Dep" version="1.0" shared-library="libdep.so.1" c:identifier-prefixes="Dep" '
+        'c:symbol-prefixes="dep">\n'
+        '    <record name="%s" c:type="DepThing">\n      <field name="v" writable="1"><type name="gint" c:type="gint"/></field>\n'
+        '    </record>\n  </namespace>\n</repository>\n') % recname
 
 
 def write_atomic(path, data, mtime_ns=None):
@@ -78,6 +88,18 @@ def ensure_deps(dirname=DEPDIR, copy_mini=False):
     for n in GENERATED:
         p = os.path.join(dirname, n + '.gir')
         text = dep_text(n)
+        try:
+            with open(p) as f:
+                if f.read() == text:
+                    continue
+        except OSError:
+            pass
+        write_atomic(p, text)
+    for d, rec in sorted(INCDIRS.items()):
+        dd = os.path.join(os.path.dirname(dirname), d) if dirname == DEPDIR else os.path.join(dirname, d)
+        os.makedirs(dd, exist_ok=True)
+        p = os.path.join(dd, 'Dep-1.0.gir')
+        text = incdep_text(rec)
         try:
             with open(p) as f:
                 if f.read() == text:
@@ -446,6 +468,79 @@ def inputs():
     ], files=[A, A, B, B, A], blocks=[
         B_('FooU3', desc='Third name.'),
     ]))
+
+    # 15.. - every container kind with >= 3 methods, >= 2 constructors, >= 2 static functions declared in
+    #        non-alphabetical order and spread over two headers
+    def members(pfx, T, ctors=True):
+        fs = [Func('foo_%s_zap' % pfx, 'void', [(T + '*', 'self')]),
+              Func('foo_%s_new_z' % pfx, T + '*'),
+              Func('foo_%s_static_q' % pfx, 'int', [('int', 'x')]),
+              Func('foo_%s_mid' % pfx, 'int', [(T + '*', 'self'), ('int', 'n')]),
+              Func('foo_%s_new_a' % pfx, T + '*', [('int', 'n')]),
+              Func('foo_%s_add' % pfx, 'void', [(T + '*', 'self')]),
+              Func('foo_%s_static_b' % pfx, 'int', [('int', 'x')]),
+              Func('foo_%s_static_m' % pfx, 'int', [('int', 'x'), ('int', 'y')])]
+        return [f for f in fs if ctors or '_new_' not in f.name]
+
+    def alt(n):
+        return [A if i % 2 == 0 else B for i in range(n)]
+
+    d = [Typedef('FooUn', 'union _FooUn'), Struct('_FooUn', [Field('i', 'int'), Field('d', 'double')], union=True),
+         Func('foo_un_get_type', 'GType')] + members('un', 'FooUn')
+    out.append(_inp('c-union', d, files=alt(len(d)), blocks=[
+        B_('foo_un_mid', [('self', '', 'u'), ('n', '', 'n')], ret=('', 'r')), B_('FooUn', desc='A boxed union.')],
+        dump={'foo_un_get_type': _dumpxml('boxed', 'FooUn', 'foo_un_get_type')}, includes=['GObject-2.0']))
+    d = [Struct('_FooPu', [Field('i', 'int'), Field('p', 'gpointer')], union=True), Typedef('FooPu', 'union _FooPu')] \
+        + members('pu', 'FooPu')
+    out.append(_inp('c-punion', d, files=alt(len(d)), blocks=[B_('foo_pu_zap', [('self', '', 'u')])]))
+    d = [Typedef('FooRc', 'struct _FooRc'), Struct('_FooRc', [Field('i', 'int'), Field('j', 'int')])] + members('rc', 'FooRc')
+    out.append(_inp('c-record', d, files=alt(len(d)), blocks=[B_('foo_rc_add', [('self', '', 'r')])]))
+    d = [Struct('_FooBx', [Field('i', 'int')]), Typedef('FooBx', 'struct _FooBx'), Func('foo_bx_get_type', 'GType')] \
+        + members('bx', 'FooBx')
+    out.append(_inp('c-boxed', d, files=alt(len(d)), blocks=[B_('foo_bx_new_z', ret=('transfer full', 'new'))],
+                    dump={'foo_bx_get_type': _dumpxml('boxed', 'FooBx', 'foo_bx_get_type')}, includes=['GObject-2.0']))
+    d = [Typedef('FooKl', 'struct _FooKl'), Typedef('FooKlClass', 'struct _FooKlClass'),
+         Struct('_FooKl', [Field('parent', 'GObject')]), Struct('_FooKlClass', [Field('parent_class', 'GObjectClass')]),
+         Func('foo_kl_get_type', 'GType')] + members('kl', 'FooKl')
+    out.append(_inp('c-class', d, files=alt(len(d)), blocks=[B_('foo_kl_mid', [('self', '', 'k'), ('n', '', 'n')], ret=('', 'r'))],
+                    dump={'foo_kl_get_type': _dumpxml('class', 'FooKl', 'foo_kl_get_type', parents='GObject')},
+                    includes=['GObject-2.0']))
+    d = [Typedef('FooIf', 'struct _FooIf'), Typedef('FooIfInterface', 'struct _FooIfInterface'),
+         Struct('_FooIfInterface', [Field('g_iface', 'GTypeInterface')]), Func('foo_if_get_type', 'GType')] \
+        + members('if', 'FooIf', ctors=False)
+    out.append(_inp('c-iface', d, files=alt(len(d)), blocks=[B_('foo_if_zap', [('self', '', 'i')])],
+                    dump={'foo_if_get_type': _dumpxml('interface', 'FooIf', 'foo_if_get_type', '<prerequisite name="GObject"/>')},
+                    includes=['GObject-2.0']))
+    d = [Enum('FooEn', [('FOO_EN_B', 1), ('FOO_EN_A', 0)]), Enum('FooFl', [('FOO_FL_Y', 2), ('FOO_FL_X', 1)], bitfield=True),
+         Func('foo_en_zed', 'int', [('FooEn', 'e')]), Func('foo_fl_zed', 'int', [('FooFl', 'f')]),
+         Func('foo_en_mid', 'int', [('FooEn', 'e')]), Func('foo_fl_mid', 'int', [('FooFl', 'f')]),
+         Func('foo_en_abc', 'FooEn', [('int', 'x')]), Func('foo_fl_abc', 'FooFl', [('int', 'x')]),
+         Func('foo_en_get_type', 'GType'), Func('foo_fl_get_type', 'GType')]
+    out.append(_inp('c-enum', d, files=alt(len(d)), blocks=[B_('foo_en_mid', [('e', '', 'e')], ret=('', 'r'))], dump={
+        'foo_en_get_type': _dumpxml('enum', 'FooEn', 'foo_en_get_type',
+                                    '<member name="FOO_EN_B" nick="b" value="1"/><member name="FOO_EN_A" nick="a" value="0"/>'),
+        'foo_fl_get_type': _dumpxml('flags', 'FooFl', 'foo_fl_get_type',
+                                    '<member name="FOO_FL_Y" nick="y" value="2"/><member name="FOO_FL_X" nick="x" value="1"/>')},
+        includes=['GObject-2.0']))
+
+    # two include directories that both hold Dep-1.0.gir with different content: the first one given wins
+    for nm, dirs, want, never in (('incpaths-ab', ['inc_a', 'inc_b'], 'Dep.Thing', 'Dep.Item'),
+                                  ('incpaths-ba', ['inc_b', 'inc_a'], 'Dep.Item', 'Dep.Thing')):
+        i = _inp(nm, [Func('foo_use_dep', 'void', [('DepThing*', 'thing'), ('int', 'n')]),
+                      Func('foo_get_dep', 'const DepThing*')], files=[A, B],
+                 blocks=[B_('foo_use_dep', [('thing', '', 'thing'), ('n', '', 'n')])], includes=['Dep-1.0'],
+                 include_dirs=dirs)
+        i['expect'] = ['<type name="%s"' % want]
+        i['reject'] = ['<type name="%s"' % never]
+        out.append(i)
+
+    # typedef to a pointer to a struct tag, before / after the definition of the struct
+    out.append(_inp('pointer-typedef-order', [
+        Typedef('FooPtr', 'struct _FooP*'),
+        Struct('_FooP', [Field('x', 'int'), Field('y', 'int')]),
+        Func('foo_ptr_use', 'void', [('FooPtr', 'p')]),
+        Typedef('FooP', 'struct _FooP'),
+    ], files=[A, B, A, B]))
     return out
 
 
@@ -567,6 +662,7 @@ def execute(inp, decl_order=None, renumber=False, block_order=None, block_files=
     bfiles = list(block_files) if block_files is not None else ['/src/a.c'] * nb
     comments = [(inp['blocks'][i], bfiles[i], 100 + 40 * i) for i in border]
     o = dict(inp['opts'])
-    paths = include_paths if include_paths is not None else [deps_dir or DEPDIR, run.DEPS]
+    incdirs = [os.path.join(BUILD, d) for d in o.pop('include_dirs', [])]
+    paths = include_paths if include_paths is not None else incdirs + [deps_dir or DEPDIR, run.DEPS]
     return run.scan(symbols=symbols, comments=comments, dump=dump_callable(inp, kid_orders, top_order), include_paths=paths,
                     use_cache=use_cache, keep=keep, **o)
